@@ -40,17 +40,14 @@ Proof.
   apply N.mod_small. lia.
 Qed.
 
-Lemma gen_fold_key b : fold_key b = fold_byte b.       Proof. apply mk_fold_spec. Qed.
-Lemma gen_fold_keystr b : fold_keystr b = fold_byte b. Proof. apply mk_fold_spec. Qed.
-Lemma gen_fold_keypfx b : fold_keypfx b = fold_byte b. Proof. apply mk_fold_spec. Qed.
+Lemma gen_fold_key b : fold_key b = fold_byte b.       Proof. reflexivity. Qed.
+Lemma gen_fold_keystr b : fold_keystr b = fold_byte b. Proof. reflexivity. Qed.
+Lemma gen_fold_keypfx b : fold_keypfx b = fold_byte b. Proof. reflexivity. Qed.
 Lemma gen_fold_wwn b : fold_wwn b = fold_byte b.       Proof. apply mk_fold_spec. Qed.
 Lemma gen_fold_wep b : fold_wep b = fold_byte b.       Proof. apply mk_fold_spec. Qed.
 Lemma gen_fold_enf_a b : fold_enf_a b = fold_byte b.   Proof. reflexivity. Qed.
 Lemma gen_fold_enf_b b : fold_enf_b b = fold_byte b.   Proof. reflexivity. Qed.
 Lemma gen_fold_fwn b : fold_fwn b = fold_byte b.       Proof. reflexivity. Qed.
-(* KeySimple (benchmark helper) folds the same way *)
-Lemma gen_fold_keysimple : (keysimple_fold_lo, keysimple_fold_hi, keysimple_fold_delta) = (65, 90, 32).
-Proof. reflexivity. Qed.
 
 (* family markers, rounding, bounds: the values the proofs below rely on *)
 Lemma gen_family_markers :
@@ -356,14 +353,14 @@ Proof.
 Qed.
 
 Lemma keystring_eq_key name qt qc cd : pre_keystring name qt qc cd = pre_key name qt qc cd.
-Proof. unfold pre_keystring, pre_key. rewrite map_fold_key, map_fold_keystr. reflexivity. Qed.
+Proof. reflexivity. Qed.
 
 Lemma wire_pres_prefix_preimage_eq_lemma ls qt qc cd p :
   name_wf ls = true ->
   pre_keywirewithprefix (encode ls) qt qc cd p = Some (pre_keywithprefix (present ls) qt qc cd p).
 Proof.
   intros Hw. destruct p as [s|]; cbn [pre_keywirewithprefix pre_keywithprefix].
-  - rewrite write_wire_name_encode by exact Hw. rewrite map_fold_keypfx. reflexivity.
+  - rewrite write_wire_name_encode by exact Hw. reflexivity.
   - apply wire_pres_preimage_eq_lemma. exact Hw.
 Qed.
 
